@@ -33,7 +33,8 @@ RULE = ("Per type (B E J K N R S T) and direction: a dense uniform grid over the
         'valid samples with NaN / +-inf / far-out-of-range ones (each valid sample must convert as it does on its own '
         'and per the reference).'
         ' ThermocoupleScaling over arrays of 2^k - 1, 2^k, 2^k + 1 samples; a result must survive the next conversion '
-        'of an equally long array.')
+        'of an equally long array.'
+        " Another thermocouple type's scaling object is created and used between construction and use.")
 ASSUMPTIONS = [
     "forward oracle trusts the transcription of the NIST tables shipped in thermocouples_reference (frozen JSON copy)",
     "inverse coefficients can only be judged through NIST's error bound (changes below the bound are invisible by definition)",
